@@ -517,6 +517,91 @@ def rule_sibling_order(prog, run, rid):
     return n
 
 
+def rule_unsigned_le(prog, run, rid):
+    """for (i = ...; i <= n; i++) with i and n of the same unsigned type and n a parameter: never false for n == max, the loop does not terminate"""
+    n_loops = 0
+    for f in prog.fns.values():
+        if f.entry is None or f.raw.get('dependent'):
+            continue
+        for b in f.blocks.values():
+            t = b.get('term')
+            if not t or t.get('k') not in ('for', 'while', 'do') or 'cond' not in t:
+                continue
+            n_loops += 1
+            for j in f.walk(t['cond']):
+                bo = f.binop(j)
+                if not bo or bo[0] not in ('<=', '>='):
+                    continue
+                cnt, bound = (bo[1], bo[2]) if bo[0] == '<=' else (bo[2], bo[1])
+                cn, bn = f.nodes[f.skip(cnt)], f.nodes[f.skip(bound)]
+                # no integral promotion in between: both operands already have the same unsigned type of at least int width
+                if cn['k'] != 'var' or cn.get('vk') != 'local' or not (cn.get('tc') or '').endswith('u') or cn.get('tc') != bn.get('tc') or cn.get('tc') in ('int8u', 'int16u'):
+                    continue
+                ext = bn['k'] == 'var' and bn.get('vk') == 'param' or (bn['k'] == 'mem' and any(f.nodes[x].get('vk') == 'param' for x in f.walk(bound)))
+                incs = [i for i, n in f.all_nodes('un') if n['op'] in ('post++', 'pre++') and f.nodes[f.skip(n['e'])].get('decl') == cn['decl']]
+                if not ext or not incs:
+                    continue
+                run.instance(rid)
+                run.violation(rid, '%s#unsigned-le-bound' % f.qname, f.loc(j),
+                              'loop condition %s compares two %s values with <= and counts up to a caller-supplied bound: for the maximal value the condition is '
+                              'never false and the loop does not terminate (and up to 2^32 iterations for other large values)' % (f.fmt(j, inline=False)[:60], cn.get('t')))
+    return n_loops
+
+
+def rule_fresh_per_iteration(prog, run, rid):
+    """a record that is appended to a result list in every iteration of a parse loop is created inside the loop body (or reassigned as a whole there):
+    an object declared outside keeps what only some iterations set (appended lists, fields set under a condition)"""
+    n = 0
+    for f in prog.fns.values():
+        if f.is_lambda or f.entry is None or f.raw.get('dependent') or not (f.name.startswith('parse') or f.name == 'fromDom'):
+            continue
+        dom = f.dom()
+        defs = f.defs()
+        for b in f.blocks.values():
+            t = b.get('term')
+            if not t or t.get('k') not in ('rangefor', 'for', 'while') or not b['succs'] or b['succs'][0] is None:
+                continue
+            body = {x for x in f.blocks if ('b', b['succs'][0]) in dom.get(('b', x), set())}
+            for i, nd in f.calls():
+                if not f.pos(i) or f.pos(i)[0] not in body:
+                    continue
+                s = f.sym(nd) or {}
+                if s.get('name') not in ('append', 'push_back', 'operator<<', 'insert', 'emplace_back', 'prepend'):
+                    continue
+                args = nd.get('opargs', nd.get('args', []))
+                vals = args[1:] if nd.get('op') else args
+                for a in vals:
+                    an = f.nodes[f.skip(a)]
+                    if an['k'] != 'var' or an.get('vk') != 'local' or not (an.get('tc') or '').startswith('record:'):
+                        continue
+                    d = defs.get(an['decl'])
+                    if not d or d.get('rangevar') or d.get('ref'):
+                        continue
+                    rec = (an.get('tc') or '')[7:]
+                    if rec.split('<')[0] in ('QString', 'QByteArray', 'QStringList', 'QDomElement', 'QDomNode', 'QUrl', 'QDateTime', 'QVariant', 'QList', 'QVector', 'QMap', 'QHash'):
+                        continue
+                    n += 1
+                    run.instance(rid)
+                    dpos = f.pos(d['node'])
+                    inside = dpos and dpos[0] in body
+                    reassigned = False
+                    for k2, asn in f.all_nodes('assign'):
+                        l = f.nodes[f.skip(asn['l'])]
+                        if l['k'] == 'var' and l.get('decl') == an['decl'] and f.pos(k2) and f.pos(k2)[0] in body and f.node_dominates(k2, i):
+                            reassigned = True
+                    for k2, c2 in f.calls():
+                        if c2.get('op') == '=' and c2.get('opargs') and f.nodes[f.skip(c2['opargs'][0])].get('decl') == an['decl'] and f.pos(k2) and f.pos(k2)[0] in body \
+                                and f.node_dominates(k2, i):
+                            reassigned = True
+                    if inside or reassigned:
+                        run.ok(rid, f.loc(i), '%s: %s is fresh in every iteration' % (f.display()[:50], an.get('name')), nontrivial=False)
+                    else:
+                        run.violation(rid, '%s#stale-object#%s' % (f.qname, an.get('name')), f.loc(i),
+                                      '%s (%s) is declared outside the loop and appended in every iteration without being reset: what an earlier element set (appended '
+                                      'lists, conditionally set fields) leaks into the following elements, and grows with every parse/serialize pass' % (an.get('name'), rec))
+    return n
+
+
 def run(prog, run):
     run.explanation = ('Structural safety clauses for every parser: scalar members of parsed records are definitely initialised at every creation site; '
                        'integers become enums only behind a check; sizes, indices and loop bounds derived from attributes/text/wire integers are '
@@ -552,8 +637,13 @@ def run(prog, run):
                             'different member written by another child\'s arm', floor=40)
     run.extra['per_child_dispatchers'] = rule_sibling_order(prog, run, r6)
 
+    r7 = run.rule('C02.R7', 'no counting loop runs up to a caller-supplied unsigned bound with <= (non-termination at the maximal value)', floor=0)
+    run.extra['loops_scanned'] = rule_unsigned_le(prog, run, r7)
+    r8 = run.rule('C02.R8', 'objects collected by a parse loop are fresh in every iteration (declared in the loop body or reassigned as a whole)', floor=20)
+    run.extra['collected_objects'] = rule_fresh_per_iteration(prog, run, r8)
+
     # positive controls: the zero-expected rules must fire on controls/c02_controls.cpp
-    rc = run.rule('C02.controls', 'positive controls: R1, R2, R3, R5 and R6 each report their seeded construct in controls/c02_controls.cpp', floor=5)
+    rc = run.rule('C02.controls', 'positive controls: R1, R2, R3, R5, R6, R7 and R8 each report their seeded construct in controls/c02_controls.cpp', floor=7)
     cpath = os.path.join(build.VERIF, 'controls', 'c02_controls.cpp')
     cprog = facts.Program(build.extract_control(cpath))
     bad = [u for u in cprog.units.values() if u.bad_diags()]
@@ -563,7 +653,9 @@ def run(prog, run):
                            ('R2', lambda s, r: rule_enum_casts(cprog, s, r), 'cast_unchecked'),
                            ('R3', lambda s, r: rule_taint(cprog, s, r), 'taint_'),
                            ('R5', lambda s, r: rule_loop_progress(cprog, s, r), 'loop_no_progress'),
-                           ('R6', lambda s, r: rule_sibling_order(cprog, s, r), 'parseOrderDependent')):
+                           ('R6', lambda s, r: rule_sibling_order(cprog, s, r), 'parseOrderDependent'),
+                           ('R7', lambda s, r: rule_unsigned_le(cprog, s, r), 'ack_up_to'),
+                           ('R8', lambda s, r: rule_fresh_per_iteration(cprog, s, r), 'parseStaleItem')):
         sub = type(run)(run.prop, run.tier, run.seed)
         rr = sub.rule('x', 'x')
         fn(sub, rr)
